@@ -319,6 +319,9 @@ def monitor_reruns(ctx, tool, progs, processes, repeat, stats):
                               "back end %s produced different output for %s on repeated compilation in one process (map iteration order)" % (t, name),
                               files={"program.wgsl": src, "job.json": json.dumps({"id": 0, "src": src, "data": {"targets": [t], "repeat": 50}}),
                                      "mode.txt": "outputs"}, key=key)
+            for t in r.get("options_mutated") or []:
+                ctx.violation("%s.Compile altered the Options value it was given (maps/pointers inside Options are shared with the caller)" % t,
+                              files={"program.wgsl": src}, key="options-mutated:" + t)
             if r.get("lower_unstable"):
                 ctx.violation("lowering %s twice in one process gave different modules: %s" % (name, r["lower_unstable"][:4]),
                               files={"program.wgsl": src}, key="nondeterministic:lowering:" + name)
@@ -453,7 +456,33 @@ def replay(ctx, tools, racetool):
 
 # ------------------------------------------------------------------ main
 
+def dedup_violations(ctx, per_class=4):
+    """Report each key once and at most `per_class` keys of one class (text before the last ':'), so that one defect
+    does not produce hundreds of replays; the rest is counted in coverage.suppressed_repeats."""
+    orig = ctx.violation
+    seen = {}
+    classes = {}
+    sup = ctx.cov.setdefault("suppressed_repeats", {})
+
+    def v(what, files=None, found_input=True, key=None, broken=None):
+        if key is not None:
+            if key in seen:
+                sup[key] = sup.get(key, 0) + 1
+                return False
+            cls = key.rsplit(":", 1)[0] if ":" in key else key
+            known = any(k.get("status") == "open" and k.get("match") == key for k in ctx._known)
+            if not known:
+                if classes.get(cls, 0) >= per_class:
+                    sup[cls + ":*"] = sup.get(cls + ":*", 0) + 1
+                    return False
+                classes[cls] = classes.get(cls, 0) + 1
+            seen[key] = 1
+        return orig(what, files=files, found_input=found_input, key=key, broken=broken)
+    ctx.violation = v
+
+
 def run(ctx):
+    dedup_violations(ctx)
     phase = {}
     t_ = [time.time()]
 
